@@ -186,8 +186,8 @@ def _judge_prefix(v_open: str, v_closed: str, expected: Optional[str]) -> Option
             return ("differs-from-spec-verdict-of-completion(evaluate-on-completion-agrees)",
                     f"open tree -> {v_open}, completion -> {v_closed}, spec {expected}")
         return None
-    if v_closed == "TO":
-        return None
+    if v_closed in ("TO", "ZU"):
+        return None  # watchdog / Z3 answered unknown inside ISLa (3 attempts): inconclusive
     return ("completion-gets-no-definite-verdict",
             f"open tree -> {v_open}, completion -> {v_closed} (spec {expected})")
 
@@ -231,10 +231,6 @@ def _worker(task: Dict[str, Any]) -> Dict[str, Any]:
                 continue
             counts["closed"] += 1
             v_closed = H.call_evaluate(formula, closed, grammar, max(20.0, task["watchdog"]))
-            for _ in range(2):
-                if v_closed != "U":
-                    break  # UNKNOWN on a closed tree is usually the 500 ms Z3 timeout of is_valid(): retry
-                v_closed = H.call_evaluate(formula, closed, grammar, max(20.0, task["watchdog"]))
             oracle = H.oracle_verdicts(formula, closed, grammar, features)
             expected = None
             if not oracle["error"] and len(oracle["verdicts"]) == 1 and (oracle["exact"] or (numeric and task["dc"])):
@@ -251,7 +247,9 @@ def _worker(task: Dict[str, Any]) -> Dict[str, Any]:
                     verdicts.append(v)
                     placeholders.append(False)
                     continue
-                v = H.call_evaluate(formula, prefix, grammar, task["watchdog"])
+                v = H.call_evaluate(formula, prefix, grammar, task["watchdog"], retries=0)
+                if v == "ZU":
+                    v = "U"  # on an open tree UNKNOWN is always admissible
                 verdicts.append(v)
                 placeholders.append(bool(H.LAST["placeholders"]))
                 counts["open_cases"] += 1
